@@ -293,7 +293,7 @@ func init() {
 		Title: "The example JSON parser agrees with encoding/json on the supported subset",
 		Plan: func(tier string, seed int64) []run.Job {
 			var jobs []run.Job
-			n, per := 16, 1200
+			n, per := 16, 4000
 			if tier == "thorough" {
 				n, per = 64, 8000
 			}
